@@ -640,7 +640,23 @@ func (f *Frame) appendSlices(st *State, s, t *Term) *Term {
 	b, k := freshBVar("k", sortInt)
 	f.addHyp(tTrue(), mkQuant("forall", []BVar{b}, tEq(tSelect(arr, k),
 		tIte(tLt(k, slLen(s)), tSelect(slArr(s), k), tSelect(slArr(t), tSub(k, slLen(s)))))))
-	return mkSlice(s.Sort, arr, tAdd(slLen(s), tl), tOr(slNN(s), tGt(tl, tInt(0))))
+	res := mkSlice(s.Sort, arr, tAdd(slLen(s), tl), tOr(slNN(s), tGt(tl, tInt(0))))
+	// membership lemmas of append(s, t...) (consequences of the element-wise definition above, stated over the
+	// skolemised contains predicate so that quantified membership invariants go through)
+	if !s.open && !t.open {
+		cn := "contains$" + sanitize(s.Sort.Name)
+		if _, used := symDecls[cn]; used {
+			C := func(sl, x *Term) *Term { return app(cn, sortBool, sl, x) }
+			es := slArr(s).Sort.Elem
+			b1, x1 := freshBVar("x", es)
+			f.root.hyps = append(f.root.hyps, mkForallPat([]BVar{b1}, tImp(C(s, x1), C(res, x1)), []*Term{C(s, x1)}, []*Term{C(res, x1)}))
+			b2, x2 := freshBVar("x", es)
+			f.root.hyps = append(f.root.hyps, mkForallPat([]BVar{b2}, tImp(C(t, x2), C(res, x2)), []*Term{C(t, x2)}, []*Term{C(res, x2)}))
+			b3, x3 := freshBVar("x", es)
+			f.root.hyps = append(f.root.hyps, mkForallPat([]BVar{b3}, tImp(C(res, x3), tOr(C(s, x3), C(t, x3))), []*Term{C(res, x3)}))
+		}
+	}
+	return res
 }
 
 // ---------------------------------------------------------------------------------------------
